@@ -221,15 +221,15 @@ const COPYRIGHT_LICENSE: &[FieldSpec] = &[
 // ---- dep3::lossy::PatchHeader -----------------------------------------------------------------------------
 const DEP3_PATCH_HEADER: &[FieldSpec] = &[
     // parse_origin / format_origin: "[category, ]origin" with origin "commit:<id>" or anything else; never fails
-    f!("Origin", false, ["upstream, https://example.com/commit/1", "commit:abc123", "backport, commit:abc123", "Ubuntu, https://launchpad.net/x", "other, Fedora, https://example.com/p"], Normal, None),
+    f!("Origin", false, ["upstream, https://example.com/commit/1", "commit:abc123", "backport, commit:abc123", "Ubuntu, https://launchpad.net/x", "other, Fedora, https://example.com/p", "vendor, https://Example.com/Patch/ABC"], Normal, None),
     // "no" / "not-needed" / anything else = reference; never fails
-    f!("Forwarded", false, ["no", "not-needed", "https://lists.example.com/msg/1"], Normal, None),
+    f!("Forwarded", false, ["no", "not-needed", "https://lists.example.com/msg/1", "https://GitHub.com/Example/Widget/pull/42#IssueComment-XyZ", "upstream, 2.0"], Normal, None),
     text!("Author", "John Doe <john.doe@example.com>", "Jane Doe <jane@example.com>"),
     text!("Reviewed-by", "Jane Doe <jane@example.com>", "John Doe <john.doe@example.com>"),
     f!("Bug-Debian", false, ["https://bugs.debian.org/123456", "https://bugs.debian.org/cgi-bin/bugreport.cgi?bug=510219"], Normal, Some("not a url")),
     // chrono::NaiveDate, "%Y-%m-%d" both ways
     f!("Last-Update", false, ["2023-01-15", "1999-12-31"], Normal, Some("yesterday")),
-    f!("Applied-Upstream", false, ["commit:abc123", "1.2.3", "https://example.com/commit/1"], Normal, None),
+    f!("Applied-Upstream", false, ["commit:abc123", "1.2.3", "https://example.com/commit/1", "https://Example.com/Commit/ABC", "upstream, 2.0", "vendor"], Normal, None),
     f!("Bug", false, ["https://bugzilla.example.com/bug.cgi?id=123456", "https://example.com/"], Normal, Some("not a url")),
     text!("Description", "fix a bug", "fix a bug\nThis fixes the bug\n.\nfor good"),
 ];
